@@ -181,7 +181,10 @@ def main(tier, seed, budget):
                 continue
             r = out[1]
             if sigs_of(a, r):
-                stats['ref_failed'].append([list(key), sorted(sigs_of(a, r))])   # fault-free run fails: C03/C13 business
+                stats['ref_failed'].append([list(key), sorted(sigs_of(a, r))])   # fault-free run fails: not a timeout matter
+                if a['basis'] is None:
+                    for s_ in sigs_of(a, r):
+                        rep.add('fault-free:' + s_, dict(run_seed=0, job=dict(fn=JOB, args=a), violation=r.get('violation'), probs=r.get('probs')))
                 continue
             profiles[key] = {i: rk['clock']['profile'] for i, rk in enumerate(r['ranks'])}
             prof_steps[key] = r['steps']
